@@ -12,8 +12,11 @@ SEMS = [("add", "mul"), ("logaddexp", "add"), ("max", "add"), ("min", "add"), ("
 
 def gen_case(seed):
     src = SeedSource(seed)
-    family = src.pick(["general", "general", "reals", "semiring", "semiring", "gauss_chain", "gauss_int", "binders"])
-    if family == "general":
+    family = src.pick(["general", "general", "reals", "semiring", "semiring", "gauss_chain", "gauss_int", "binders", "shaped", "shaped"])
+    if family == "shaped":
+        # array-valued outputs: reshape / getslice / getitem / einsum / matmul / stack and cat of outputs / Lambda
+        ast = gen_expr(src, Opts(max_depth=3, shaped=True, reals=src.pick([False, True, True])), src.pick([("real", ()), ("real", (2,)), ("real", (3,)), ("real", (2, 2)), ("real", (1, 3))]))
+    elif family == "general":
         ast = gen_expr(src, Opts(max_depth=3), None)
     elif family == "reals":
         ast = gen_expr(src, Opts(max_depth=3, reals=True), None)
